@@ -244,6 +244,18 @@ PUngate ==
   /\ Is("Ungate") /\ e.stuck = 0
   /\ UNCHANGED mvars /\ Keep /\ TUnch
 
+\* an emitter that was parked between its pre-check and its lock section (while Close() completed, or
+\* while the connection was lost and re-established) has returned after being released
+PUnpark ==
+  /\ Is("Unpark") /\ e.stuck = 0
+  /\ UNCHANGED mvars /\ Keep /\ TUnch
+
+\* at the end of a run (everything returned) the sequencer mutex was found free: in the model every
+\* lock section releases the lock, so `lock = 0` whenever no emitter is inside one
+PLockProbe ==
+  /\ Is("LockProbe") /\ e.free /\ lock = 0 /\ Flying = {}
+  /\ UNCHANGED mvars /\ Keep /\ TUnch
+
 PConnClose ==
   /\ Is("ConnClose")
   /\ IF e.force THEN UNCHANGED mvars
@@ -280,7 +292,7 @@ PEnd ==
 Point ==
   /\ l' = l + 1
   /\ \/ PRun \/ PCall \/ PEmitL \/ PRet \/ PFlush \/ PPeek \/ PPeekC \/ PBump \/ PReset \/ PDial
-     \/ PWrite \/ PGate \/ PUngate \/ PConnClose \/ PReadErr \/ PCloseCall \/ PCloseRet \/ PEnd
+     \/ PWrite \/ PGate \/ PUngate \/ PUnpark \/ PLockProbe \/ PConnClose \/ PReadErr \/ PCloseCall \/ PCloseRet \/ PEnd
 
 -----------------------------------------------------------------------------
 (* Hidden steps: operations of the writer / connection goroutine that have no point. *)
@@ -396,7 +408,10 @@ RunVerdict(i) ==
             THEN {"follow-up accepted with a parent of another connection"} ELSE {}
       w5 == IF DOMAIN calls # DOMAIN rets THEN {"a call did not return"} ELSE {}
       w6 == IF \E j \in i..last : Trace[j].ev = "Ungate" /\ Trace[j].stuck # 0 THEN {"emitter blocked while the writer was blocked in Write"} ELSE {}
-  IN w1 \cup w2 \cup w3 \cup w4 \cup w5 \cup w6
+      w7 == IF \E j \in i..last : Trace[j].ev = "Unpark" /\ Trace[j].stuck # 0 THEN {"emitter that straddled Close / a reconnect did not return"} ELSE {}
+      w8 == IF \E j \in i..last : Trace[j].ev = "LockProbe" /\ ~Trace[j].free THEN {"sequencer mutex still held after everything returned"} ELSE {}
+      w9 == IF \E j \in i..last : Trace[j].ev = "Stuck" THEN {"emitters did not return (no call completed for 5 s after a 25 s watchdog)"} ELSE {}
+  IN w1 \cup w2 \cup w3 \cup w4 \cup w5 \cup w6 \cup w7 \cup w8 \cup w9
 
 NextRun(i) == LET later == {j \in RunStarts : j >= i} IN IF later = {} THEN N + 1 ELSE CHOOSE j \in later : \A j2 \in later : j <= j2
 
